@@ -73,7 +73,9 @@ def failing_text(rng, a):
         elif c[0] == "maxlen":
             cands.append("q" * (c[1] + 1))
         elif c[0] == "pattern":
-            cands += {"^[a-z]+$": ["ab1", "A"], "^[0-9]+$": ["12a", "x"], "^a.*z$": ["abc", "za"]}[c[1]]
+            cands += {"^[a-z]+$": ["ab1", "A"], "^[0-9]+$": ["12a", "x"], "^a.*z$": ["abc", "za"],
+                      # not anchored: regex_match() still wants the whole value, a search would accept these
+                      "[a-z]+": ["ab1", "1ab", "A"], "[0-9]+": ["12a", "a12", "x"], "a.*z": ["xazx", "aza", "abc"]}[c[1]]
     rng.shuffle(cands)
     for x in cands:
         t = repr(x) if isinstance(x, float) else str(x)
